@@ -31,8 +31,10 @@ DESIGN_REF = "DESIGN.md section 4, C18"
 NAMES = [None, "a", "b", "A", "Total Sales", "a b", "x", "", "sum", "copy", "a_sum", "a_sum2", "key", "col",
          "col_sum", "3d", "$", "key2", "a__1", "a_", "count", "A B"]
 FNS = ["sum", "mean", "min", "max", "count", "stdev"]
-VKEEP = ["copy", "slice", "mask", "index", "sort", "setitem", "promote", "unary", "T", "cast", "fillna"]
-CLAIMED_VKEEP = {"copy", "slice", "mask", "index", "sort", "setitem", "promote", "fit"}
+VKEEP = ["copy", "slice", "mask", "index", "sort", "sortr", "sortn", "sortnr", "maskn", "setitem", "promote", "unary",
+         "T", "cast", "fillna"]
+CLAIMED_VKEEP = {"copy", "slice", "mask", "index", "sort", "sortr", "sortn", "sortnr", "maskn", "setitem", "promote",
+                 "fit"}
 TKEEP = ["mask", "slice", "index", "sort", "copy"]
 
 
@@ -275,6 +277,15 @@ def ev_v(e, rec, path=""):
             r = a[[n - 1, 0]]
         elif kind == "sort":
             r = a.sort_by()
+        elif kind == "sortr":
+            r = a.sort_by(reverse=True)
+        elif kind in ("sortn", "sortnr", "maskn"):           # the same on a vector that holds a None
+            a = a.copy()
+            a[n - 1] = None
+            if kind == "maskn":
+                r = a[[True] * n]
+            else:
+                r = a.sort_by(reverse=(kind == "sortnr"), na_last=(kind == "sortn"))
         elif kind == "setitem":
             a[0] = a[0]
             r = a
@@ -512,6 +523,7 @@ def _cn(n):
 
 
 _KEEP = {"copy": "KCopy", "slice": "KSlice", "fit": "KSlice", "mask": "KMask", "index": "KIndex", "sort": "KSort",
+         "sortr": "KSort", "sortn": "KSort", "sortnr": "KSort", "maskn": "KMask",
          "setitem": "KSetitem", "promote": "KPromote", "unary": "KUnary", "T": "KT", "cast": "KCast", "fillna": "KFillna"}
 _TKEEP = {"mask": "TKMask", "slice": "TKSlice", "fit": "TKSlice", "index": "TKIndex", "sort": "TKSort", "copy": "TKCopy"}
 _JK = {"inner_join": "JInner", "join": "JLeft", "full_join": "JFull"}
